@@ -251,6 +251,21 @@ def uniq_prop_check(ctx, c, outs):
         for j in range(i + 1, len(out)):
             if same_elem(cls, opts, out[i], oflags[i], out[j], oflags[j], 0.0):
                 return f"nodup: returned elements {i} and {j} are the same: {out[i].tolist()} / {out[j].tolist()}"
+    # 1b. numerical equality of rotations without the antipodal identification is equality of the components at the 10th decimal
+    # (the near-duplicate thresholds the property quantifies over): two returned rotations whose components agree after that
+    # rounding - a component that rounds to zero from either side is zero, whatever its sign bit - are one rotation twice
+    if cls in ROT and not opts["antipodal"]:
+        r10 = np.round(out, 10) + 0.0
+        # (rows with a component at a rounding tie are left to the correspondence site: the constructor renormalises returned
+        # rows by an ulp, which may move a tie to the other side)
+        tie = np.any(np.abs(np.abs(out) * 1e10 % 1.0 - 0.5) < 1e-3, axis=1) if len(out) else np.zeros(0, bool)
+        for i in range(len(out)):
+            for j in range(i + 1, len(out)):
+                if tie[i] or tie[j]:
+                    continue
+                if bool(oflags[i]) == bool(oflags[j]) and np.array_equal(r10[i], r10[j]):
+                    return (f"nodup: returned elements {i} and {j} agree in every component at the 10th decimal: "
+                            f"{out[i].tolist()} / {out[j].tolist()}")
     # 2. zero vectors dropped
     if cls in BASE:
         for i in range(len(out)):
